@@ -8,6 +8,9 @@ import Juniper.Proofs.StreamLast
 import Juniper.Proofs.Pipeline
 import Juniper.Proofs.Minimal
 import Juniper.Proofs.IterEqual
+import Juniper.Proofs.MinimalMore
+import Juniper.Proofs.Agree
+import Juniper.Proofs.StreamPeek
 /-!
 # C07 — iterator / stream / xslices combinators compute their documented sequence function;
 lazy; sticky end (property theorems)
@@ -178,6 +181,50 @@ theorem compact_pulls (eq : α → α → Bool) (l : List α) :
     Den (compact eq src) (fun st : CompactSt (Src α) α => st.inner.pulled) ⟨Src.of l, true, none⟩
       (Seq.compactGo (fun p q => eq p.1 q.1) none (annot 0 l)) l.length := compact_den eq (slice_denotes l) none
 
+/-- `Flatten`: an item of the `j`-th inner iterator costs `j` pulls of the outer iterator — the outer
+iterator is advanced only when the current inner one has ended. -/
+theorem flatten_pulls {mi : IM τ α} (D : τ → List α) (cs : List τ)
+    (hD : ∀ c ∈ cs, ∃ (ci : τ → Nat) (Li : List (α × Nat)) (ei : Nat), Den mi ci c Li ei ∧ Li.map Prod.fst = D c) :
+    Den (flatten src mi) (fun st : FlattenSt (Src τ) τ => st.outer.pulled) ⟨Src.of cs, none⟩
+      ((annot 0 cs).flatMap fun p => (D p.1).map fun a => (a, p.2)) cs.length :=
+  flatten_den D (slice_denotes cs) (fun p hp => hD p.1 (by
+    have := List.mem_map_of_mem (f := Prod.fst) hp
+    rwa [annot_fst] at this))
+
+example : ((annot 0 [[1, 2], [], [3]]).flatMap fun p => (id p.1).map fun a => (a, p.2)) = [(1, 1), (2, 1), (3, 3)] := by
+  decide
+
+/-- `Join` over slices: the `k`-th answer costs `k` pulls in total (`joinCost` = items pulled from all
+arguments together); exhausted arguments are stepped over without pulling an item. -/
+theorem join_pulls (ls : List (List α)) :
+    Den (join src) (joinCost ls.flatten.length) (ls.map Src.of) (annot 0 ls.flatten) ls.flatten.length :=
+  join_pulls' ls
+
+example : annot 0 [[1, 2], [], [3]].flatten = [(1, 1), (2, 2), (3, 3)] := by decide
+
+/-- `Runs` (documented protocol, any `take`): a run is delivered once the first item of the next run
+has been pulled — one item of lookahead, never more — the last run when the source has ended. -/
+theorem runs_pulls (same : α → α → Bool) (hrefl : ∀ a, same a a = true) (take : Option Nat) (l : List α) :
+    Den (runsProto same take src) (rcost fun s : Src α => s.pulled) ⟨⟨⟨Src.of l, none⟩, 0, none⟩, none⟩
+      (runsStartA same take (annot 0 l) l.length) l.length :=
+  (runs_den same hrefl take (slice_denotes l)).2.2 0
+
+example : runsStartA (fun a b : Nat => a == b) none (annot 0 [1, 1, 2, 3, 3]) 5 =
+    [([1, 1], 3), ([2], 4), ([3, 3], 5)] := by decide
+
+/-- **`WithPeek` under any interleaving of `Peek` and `Next`** (slice source): every call answers the
+item after those consumed by the earlier `Next` calls — so whatever `Peek` shows is what the next `Next`
+returns, however many `Peek`s come in between — and the number of source items pulled is
+`min len (#Next + [the last call was a Peek])`: the first `Peek` after a `Next` costs one pull, further
+ones nothing, and a `Next` after a `Peek` nothing. -/
+theorem peek_interleave (l : List α) (ops : List PeekOp) :
+    (peekRun src ops ⟨Src.of l, none⟩).1 = peekAnswers l ops 0 ∧
+    (peekRun src ops ⟨Src.of l, none⟩).2.inner.pulled =
+      min l.length (peekNexts ops + if ops.getLast? = some .peek then 1 else 0) := peek_interleave' l ops
+
+example : peekAnswers [7, 8, 9] [.peek, .peek, .next, .next, .peek] 0 = [.item 7, .item 7, .item 7, .item 8, .item 9] ∧
+    min 3 (peekNexts [.peek, .peek, .next, .next, .peek] + 1) = 3 := by decide
+
 /-! ### … and these pull counts are minimal -/
 
 /-- **`need_minimal_map`**: the `k`-th answer of `Map` costs `k` pulls, and `k - 1` source items leave it
@@ -200,6 +247,45 @@ theorem need_minimal_while (f : α → Bool) (l : List α) (q : α × Nat)
   need_minimal_while' f l q hq
 
 example : (3, 3) ∈ (annot 0 [1, 2, 3, 4]).filter fun r => r.1 % 2 == 1 := by decide
+
+/-- **`need_minimal_chunk`**: the `k`-th chunk is delivered at cost `c` (`chunk_pulls`), and `c - 1`
+source items do not determine it (`Undetermined`: an input with the same first `c - 1` items has another
+`k`-th chunk, or none). -/
+theorem need_minimal_chunk (n : Nat) (l : List α) (k : Nat) (ch : List α) (c : Nat)
+    (h : (chunkGoA n [] (annot 0 l) l.length)[k]? = some (ch, c)) :
+    (Seq.chunk n l)[k]? = some ch ∧ 0 < c ∧ Undetermined (Seq.chunk n) l (c - 1) k ch :=
+  need_minimal_chunk' n l k ch c h
+
+example : (chunkGoA 2 [] (annot 0 [1, 2, 3]) 3)[1]? = some ([3], 3) := by decide
+
+/-- **`need_minimal_flatten`**: an item of the `j`-th inner iterator costs `j` outer pulls
+(`flatten_pulls`); the first `j - 1` inner iterators do not contain it. -/
+theorem need_minimal_flatten {τ : Type v} (D : τ → List α) (cs : List τ) (k : Nat) (b : α) (c : Nat)
+    (h : ((annot 0 cs).flatMap fun q => (D q.1).map fun a => (a, q.2))[k]? = some (b, c)) :
+    (cs.flatMap D)[k]? = some b ∧ 0 < c ∧ Undetermined (fun cs => cs.flatMap D) cs (c - 1) k b :=
+  need_minimal_flatten' D cs k b c h
+
+example : ((annot 0 [[1, 2], [], [3]]).flatMap fun q => (id q.1).map fun a => (a, q.2))[2]? = some (3, 3) := by decide
+
+/-- **`need_minimal_join`**: the `k`-th answer (0-based) of `Join` costs `k + 1` pulls in total
+(`join_pulls`); arguments holding only the first `k` items leave it undetermined. -/
+theorem need_minimal_join (ls : List (List α)) (k : Nat) (b : α) (c : Nat)
+    (h : (annot 0 ls.flatten)[k]? = some (b, c)) :
+    ls.flatten[k]? = some b ∧ c = k + 1 ∧ ∀ ls' : List (List α), ls'.flatten = ls.flatten.take (c - 1) →
+      ls'.flatten[k]? ≠ some b := need_minimal_join' ls k b c h
+
+example : (annot 0 [[1, 2], [], [3]].flatten)[2]? = some (3, 3) := by decide
+
+/-- **`need_minimal_runs`** (reflexive `same`, inner iterators read to their end): the `k`-th run is
+delivered at cost `c` (`runs_pulls`: one item of lookahead, or the end of the source); `c - 1` source
+items do not determine it — the run could still grow. -/
+theorem need_minimal_runs (same : α → α → Bool) (hrefl : ∀ a, same a a = true) (l : List α)
+    (k : Nat) (run : List α) (c : Nat)
+    (h : (runsStartA same none (annot 0 l) l.length)[k]? = some (run, c)) :
+    (Seq.runs same l)[k]? = some run ∧ 0 < c ∧ Undetermined (Seq.runs same) l (c - 1) k run :=
+  need_minimal_runs' same hrefl l k run c h
+
+example : (runsStartA (fun a b : Nat => a == b) none (annot 0 [1, 1, 2]) 3)[0]? = some ([1, 1], 3) := by decide
 
 /-! ### reducers -/
 
@@ -234,6 +320,61 @@ theorem equal_eq [DecidableEq α] {m : IM σ α} (l0 : List α) (s0 : σ) (r : L
       (equal m fuel rounds (s0 :: r)).1 = some (decide (∀ l ∈ ls, l = l0)) := equal_den l0 s0 r ls h0 h
 
 example : DenL src (Src.of [1, 2]) [1, 2] := ⟨_, _, _, slice_denotes [1, 2], by decide⟩
+
+/-! ### how many source items the reducers consume -/
+
+/-- `Reduce` / `Collect` read the iterator to its end: the cost afterwards is the end cost `e`
+(over a slice: all `len` items). -/
+theorem reduce_pulls {m : IM σ α} {cost : σ → Nat} {s : σ} {L : List (α × Nat)} {e : Nat} (f : β → α → β)
+    (h : Den m cost s L e) : ∃ F, ∀ fuel, F ≤ fuel → ∀ acc, cost (reduce m f fuel acc s).2 = e := reduce_cost f h
+
+theorem collect_pulls (l : List α) : ∃ F, ∀ fuel, F ≤ fuel → (collect src fuel (Src.of l)).2.pulled = l.length := by
+  obtain ⟨F, hF⟩ := reduce_cost (fun (acc : List α) a => acc ++ [a]) (slice_denotes l)
+  exact ⟨F, fun fuel hf => hF fuel hf []⟩
+
+/-- `Last(it, n)` reads the iterator to its end whatever `n` is (also `n = 0`). -/
+theorem last_pulls {m : IM σ α} {cost : σ → Nat} {s : σ} {L : List (α × Nat)} {e : Nat} (n : Nat)
+    (h : Den m cost s L e) : ∃ F, ∀ fuel, F ≤ fuel → cost (last m (n : Int) fuel s).2 = e := last_cost n h
+
+example (l : List Nat) : ∃ F, ∀ fuel, F ≤ fuel → (last src (0 : Nat) fuel (Src.of l)).2.pulled = l.length :=
+  last_pulls 0 (slice_denotes l)
+
+/-- `One` makes at most two `Next` calls: over a slice it pulls `min 2 len` items. -/
+theorem one_pulls (l : List α) : ∃ F, ∀ fuel, F ≤ fuel → (one src fuel (Src.of l)).2.pulled = min 2 l.length := by
+  obtain ⟨F, hF⟩ := one_cost (slice_denotes l)
+  refine ⟨F, fun fuel hf => ?_⟩
+  rw [hF fuel hf]
+  match l with
+  | [] => rfl
+  | [_] => rfl
+  | _ :: _ :: r => simp [annot, oneCost]
+
+/-- `Equal` over slices, in closed form (`equalL`: rounds of one `Next` per iterator, first to last,
+stopping at the first mismatch): the verdict, what is left unread of every list, and hence how many
+items every iterator was pulled for (`pulled + unread = len`). -/
+theorem equal_pulls [DecidableEq α] (l0 : List α) (ls : List (List α)) (fuel rounds : Nat) (hf : 1 ≤ fuel)
+    (hr : l0.length + 1 ≤ rounds) :
+    (equal src fuel rounds ((l0 :: ls).map Src.of)).1 = some (equalL l0 ls).1 ∧
+    (equal src fuel rounds ((l0 :: ls).map Src.of)).2.map (·.rest) = (equalL l0 ls).2 ∧
+    (equal src fuel rounds ((l0 :: ls).map Src.of)).2.map (fun s => s.pulled + s.rest.length) =
+      (l0 :: ls).map List.length := by
+  obtain ⟨g, rfl⟩ : ∃ g, fuel = g + 1 := ⟨fuel - 1, by omega⟩
+  obtain ⟨ss', h1, h2, h3⟩ := equal_src g l0 (Src.of l0) (ls.map Src.of) rounds rfl hr
+  have e1 : (ls.map Src.of).map (·.rest) = ls := by simp [Src.of, Function.comp_def]
+  rw [e1] at h1 h2
+  simp only [List.map_cons]
+  rw [h1]
+  refine ⟨rfl, h2, ?_⟩
+  have : ss'.map tot = (l0 :: ls).map List.length := by
+    rw [h3]; simp [tot, Src.of, Function.comp_def]
+  exact this
+
+/-- … in particular, when all lists are equal every iterator is read to its end … -/
+theorem equal_pulls_all_equal [DecidableEq α] (l0 : List α) (ls : List (List α)) (h : ∀ l ∈ ls, l = l0) :
+    equalL l0 ls = (true, [] :: ls.map fun _ => []) := equalL_all l0 ls h
+
+/-- … and after a mismatch the later iterators are not pulled in that round. -/
+example : equalL [1, 2, 3] [[1, 2, 3], [1, 5], [1, 2, 3]] = (false, [[3], [3], [], [2, 3]]) := by decide
 
 /-- **`pipeline_denotes`**: a pipeline of any depth (element-type-preserving stages over a slice
 source) yields the composition of the documented list functions. -/
@@ -355,7 +496,93 @@ theorem s_reduce_eq {γ : Type v} {m : SM σ α} {cost : σ → Nat} {s : σ} {L
     ∃ F, ∀ fuel, F ≤ fuel → ∀ init, (Stream.reduce m f true fuel init s).1 = foldRes f init (L.map Prod.fst) t :=
   reduce_sden f h
 
+/-! ### closed-form pull counts on the stream side (fault-free source `ofList l`, any contexts) -/
+
+/-- `stream.FlattenSlices`: the items of the `j`-th slice cost `j` pulls; nothing is pulled while the
+buffer still holds items. -/
+theorem s_flattenSlices_pulls (ls : List (List α)) :
+    SDen Err.soft (flattenSlices Stream.src) (fun st => st.inner.pulled) ⟨ofList ls, []⟩
+      ((IterDen.annot 0 ls).flatMap fun p => p.1.map fun a => (a, p.2)) (.end_ ls.length) :=
+  flattenSlices_sden (ofList_sden true (fun _ => rfl) (fun _ => rfl) ls)
+
+/-- `stream.Flatten` over fault-free inner streams: an item of the `j`-th inner stream costs `j`
+pulls of the outer stream. -/
+theorem s_flatten_pulls (ls : List (List α)) :
+    SDen Err.soft (Stream.flatten Stream.src Stream.src) (fun st => st.outer.pulled) ⟨ofList (ls.map ofList), none, []⟩
+      ((IterDen.annot 0 ls).flatMap fun p => p.1.map fun a => (a, p.2)) (.end_ ls.length) := by
+  have ho := ofList_sden (soft := Err.soft) true (fun _ => rfl) (fun _ => rfl) (ls.map ofList)
+  have h := flatten_sden (soft := Err.soft) srcD ho (fun p hp => by
+    have hm := List.mem_map_of_mem (f := Prod.fst) hp
+    rw [IterDen.annot_fst] at hm
+    obtain ⟨l, _, hl⟩ := List.mem_map.mp hm
+    rw [← hl]
+    exact srcD_hyp Err.soft (fun _ => rfl) (fun _ => rfl) l) []
+  rw [flattenS_ended, List.length_map] at h
+  exact h
+
+/-- `stream.Runs` (documented protocol): one item of lookahead per run, as for the iterator. -/
+theorem s_runs_pulls (same : α → α → Bool) (hrefl : ∀ a, same a a = true) (take : Option Nat) (closeInner : Bool)
+    (l : List α) :
+    SDen Err.soft (Stream.runsProto same take closeInner Stream.src) (StreamDen.rcost fun s : Stream.Src α => s.pulled)
+      ⟨⟨⟨ofList l, none⟩, 0, none⟩, none⟩ (runsStartS same take (IterDen.annot 0 l) (.end_ l.length)) (.end_ l.length) :=
+  (runs_sden same hrefl take closeInner (ofList_sden true (fun _ => rfl) (fun _ => rfl) l)).2.2 0
+
+/-- `stream.Collect` / `Reduce` / `Last` read a fault-free stream to its end; `One` stops after the
+second item (`min 2 len` pulls). -/
+theorem s_collect_pulls (l : List α) :
+    ∃ F, ∀ fuel, F ≤ fuel → (Stream.collect Stream.src true fuel (ofList l)).2.pulled = l.length :=
+  StreamDen.collect_cost (cost := fun s : Stream.Src α => s.pulled) (fun _ => rfl)
+    (ofList_sden (soft := strict) false (fun _ => rfl) (fun _ => rfl) l)
+
+theorem s_reduce_pulls {γ : Type v} (f : γ → α → Except Err γ) (hok : ∀ acc a, ∃ acc', f acc a = .ok acc') (l : List α) :
+    ∃ F, ∀ fuel, F ≤ fuel → ∀ init, (Stream.reduce Stream.src f true fuel init (ofList l)).2.pulled = l.length :=
+  StreamDen.reduce_cost (cost := fun s : Stream.Src α => s.pulled) (fun _ => rfl) f hok
+    (ofList_sden (soft := strict) false (fun _ => rfl) (fun _ => rfl) l)
+
+theorem s_last_pulls (n : Nat) (l : List α) :
+    ∃ F, ∀ fuel, F ≤ fuel → (Stream.last Stream.src (n : Int) true fuel (ofList l)).2.pulled = l.length :=
+  StreamDen.last_cost (cost := fun s : Stream.Src α => s.pulled) n (fun _ => rfl)
+    (ofList_sden (soft := strict) false (fun _ => rfl) (fun _ => rfl) l)
+
+theorem s_one_pulls (l : List α) :
+    ∃ F, ∀ fuel, F ≤ fuel → (Stream.one Stream.src true fuel (ofList l)).2.pulled = min 2 l.length := by
+  obtain ⟨F, hF⟩ := StreamDen.one_cost (cost := fun s : Stream.Src α => s.pulled) (fun _ => rfl)
+    (ofList_sden (soft := strict) false (fun _ => rfl) (fun _ => rfl) l)
+  refine ⟨F, fun fuel hf => ?_⟩
+  rw [hF fuel hf]
+  match l with
+  | [] => rfl
+  | [_] => rfl
+  | _ :: _ :: r => simp [IterDen.annot, IterDen.oneCost]
+
+example : (Stream.one Stream.src true 5 (ofList [4, 5, 6])).2.pulled = 2 := by decide
+
 end stream
+
+section streamPeek
+open Juniper.Model.Stream Juniper.Proofs.StreamDen
+variable {α : Type}
+
+/-- **`stream.WithPeek` under any interleaving of `Peek` and `Next` and any per-call contexts**
+(fault-free source): the answers are those of the abstract machine `(j, has)` — every call answers the
+item after those consumed by the earlier `Next`s; a call whose context has expired answers the context
+error and changes nothing, unless an item is buffered, which is then served — and the source has been
+pulled for `j + [an item is buffered]` items. -/
+theorem s_peek_interleave (l : List α) (ops : List SPeekOp) :
+    (speekRun Stream.src ops ⟨ofList l, none⟩).1 = speekAnswers l ops (0, false) ∧
+    (speekRun Stream.src ops ⟨ofList l, none⟩).2.inner.pulled =
+      (speekTrack l.length ops (0, false)).1 + (speekTrack l.length ops (0, false)).2.toNat := s_peek_interleave' l ops
+
+/-- … with live contexts, in closed form: `min len (#Next + [the last call was a Peek])`, as for the iterator. -/
+theorem s_peek_interleave_live (l : List α) (ops : List IterDen.PeekOp) :
+    (speekRun Stream.src (ops.map liveOp) ⟨ofList l, none⟩).2.inner.pulled =
+      min l.length (IterDen.peekNexts ops + if ops.getLast? = some .peek then 1 else 0) := s_peek_interleave_live' l ops
+
+example : speekAnswers [7, 8] [.peek true, .next false, .peek false, .next true, .peek true] (0, false)
+    = [.item 7, .item 7, .err .ctx, .item 8, .end_] ∧
+    speekTrack 2 [.peek true, .next false, .peek false, .next true, .peek true] (0, false) = (2, false) := by decide
+
+end streamPeek
 
 /-! ### iterator and stream versions agree (fault-free) -/
 
@@ -500,6 +727,100 @@ theorem iter_stream_agree_runs (same : α → α → Bool) (take : Option Nat) (
     obtain ⟨b, c⟩ := p
     simp [runsStartS, runsNewS, runsStartA, key, IterDen.reached]
 
+/-- `Flatten`: iterator and stream versions yield the same items at the same (outer) pull counts. -/
+theorem iter_stream_agree_flatten (ls : List (List α)) :
+    ∃ L, Den (Iter.flatten Iter.src Iter.src) (fun st => st.outer.pulled) ⟨Iter.Src.of (ls.map Iter.Src.of), none⟩ L ls.length ∧
+      SDen Stream.Err.soft (Stream.flatten Stream.src Stream.src) (fun st => st.outer.pulled)
+        ⟨ofList (ls.map ofList), none, []⟩ L (.end_ ls.length) := by
+  refine ⟨(annot 0 ls).flatMap fun p => p.1.map fun a => (a, p.2), ?_, C07.s_flatten_pulls ls⟩
+  have h := flatten_den (mi := Iter.src) (fun s : Iter.Src α => s.rest) (slice_denotes (ls.map Iter.Src.of))
+    (fun p _ => ⟨_, _, _, src_den p.1.rest p.1.calls p.1.pulled, annot_fst _ _⟩)
+  rw [flatten_annot, List.length_map] at h
+  exact h
+
+/-- `stream.FlattenSlices` has no iterator namesake; it agrees with `iterator.Flatten` over slice
+iterators (and with `stream.Flatten`, see `iter_stream_agree_flatten`): same items, same pull counts. -/
+theorem iter_stream_agree_flattenSlices (ls : List (List α)) :
+    ∃ L, Den (Iter.flatten Iter.src Iter.src) (fun st => st.outer.pulled) ⟨Iter.Src.of (ls.map Iter.Src.of), none⟩ L ls.length ∧
+      SDen Stream.Err.soft (Stream.flattenSlices Stream.src) (fun st => st.inner.pulled) ⟨ofList ls, []⟩ L (.end_ ls.length) := by
+  refine ⟨(annot 0 ls).flatMap fun p => p.1.map fun a => (a, p.2), ?_, C07.s_flattenSlices_pulls ls⟩
+  have h := flatten_den (mi := Iter.src) (fun s : Iter.Src α => s.rest) (slice_denotes (ls.map Iter.Src.of))
+    (fun p _ => ⟨_, _, _, src_den p.1.rest p.1.calls p.1.pulled, annot_fst _ _⟩)
+  rw [flatten_annot, List.length_map] at h
+  exact h
+
+/-- `Join`: iterator and stream versions yield the concatenation. -/
+theorem iter_stream_agree_join (ls : List (List α)) :
+    ∃ L, L.map Prod.fst = ls.flatten ∧
+      Den (Iter.join Iter.src) (fun _ => 0) (ls.map Iter.Src.of) L 0 ∧
+      SDen Stream.Err.soft (Stream.join Stream.src) (fun _ => 0) ⟨ls.map ofList, []⟩ L (.end_ 0) := by
+  refine ⟨ls.flatten.map fun a => (a, 0), by simp [Function.comp_def], ?_, ?_⟩
+  · have h := join_den (m := Iter.src) (fun s : Iter.Src α => s.rest) (ls.map Iter.Src.of)
+      (fun s _ => ⟨_, _, _, src_den s.rest s.calls s.pulled, annot_fst _ _⟩)
+    rwa [flatMap_rest_of] at h
+  · have h := join_sden (soft := Stream.Err.soft) srcD (ls.map ofList) (fun s hs => by
+      obtain ⟨l, _, hl⟩ := List.mem_map.mp hs
+      rw [← hl]
+      exact srcD_hyp Stream.Err.soft (fun _ => rfl) (fun _ => rfl) l) []
+    rwa [joinS_ended] at h
+
+/-! reducers: an iterator and a stream (any machines, e.g. two pipelines) that denote the same list
+return the same value -/
+
+section reducers
+variable {σ : Type u} {σ' : Type w}
+
+/-- `Collect`. -/
+theorem iter_stream_agree_collect {mi : Iter.IM σ α} {ms : Stream.SM σ' α} {ci : σ → Nat} {cs : σ' → Nat} {si : σ} {ss : σ'}
+    {Li Ls : List (α × Nat)} {ei es : Nat} (hi : Den mi ci si Li ei) (hs : SDen strict ms cs ss Ls (.end_ es))
+    (hL : Li.map Prod.fst = Ls.map Prod.fst) :
+    ∃ F, ∀ fuel, F ≤ fuel → (Iter.collect mi fuel si).1 = some (Li.map Prod.fst) ∧
+      (Stream.collect ms true fuel ss).1 = .ok (Li.map Prod.fst) := by
+  obtain ⟨F1, h1⟩ := collect_den hi
+  obtain ⟨F2, h2⟩ := collect_sden hs
+  exact ⟨max F1 F2, fun fuel hf => ⟨h1 fuel (by omega), by rw [h2 fuel (by omega), hL]; rfl⟩⟩
+
+/-- `Reduce` (the stream callback being the total function `f`). -/
+theorem iter_stream_agree_reduce {mi : Iter.IM σ α} {ms : Stream.SM σ' α} {ci : σ → Nat} {cs : σ' → Nat} {si : σ} {ss : σ'}
+    {Li Ls : List (α × Nat)} {ei es : Nat} (f : β → α → β) (hi : Den mi ci si Li ei)
+    (hs : SDen strict ms cs ss Ls (.end_ es)) (hL : Li.map Prod.fst = Ls.map Prod.fst) :
+    ∃ F, ∀ fuel, F ≤ fuel → ∀ init, (Iter.reduce mi f fuel init si).1 = some ((Li.map Prod.fst).foldl f init) ∧
+      (Stream.reduce ms (fun acc a => .ok (f acc a)) true fuel init ss).1 = .ok ((Li.map Prod.fst).foldl f init) := by
+  obtain ⟨F1, h1⟩ := reduce_den f hi
+  obtain ⟨F2, h2⟩ := reduce_sden (fun acc a => Except.ok (f acc a)) hs
+  exact ⟨max F1 F2, fun fuel hf init => ⟨(h1 fuel (by omega) init).1, by rw [h2 fuel (by omega) init, foldRes_ok, hL]⟩⟩
+
+/-- `Last` (every `n ≥ 0`). -/
+theorem iter_stream_agree_last {mi : Iter.IM σ α} {ms : Stream.SM σ' α} {ci : σ → Nat} {cs : σ' → Nat} {si : σ} {ss : σ'}
+    {Li Ls : List (α × Nat)} {ei es : Nat} (n : Nat) (hi : Den mi ci si Li ei) (hs : SDen strict ms cs ss Ls (.end_ es))
+    (hL : Li.map Prod.fst = Ls.map Prod.fst) :
+    ∃ F, ∀ fuel, F ≤ fuel → ∃ v, (Iter.last mi (n : Int) fuel si).1 = .ok v ∧ (Stream.last ms (n : Int) true fuel ss).1 = .ok v := by
+  obtain ⟨F1, h1⟩ := last_den n hi
+  obtain ⟨F2, h2⟩ := last_sden n hs
+  exact ⟨max F1 F2, fun fuel hf => ⟨_, h1 fuel (by omega), by rw [h2 fuel (by omega), hL]; rfl⟩⟩
+
+/-- `One`: the iterator's `(item, ok)` is the stream's result read through `oneOpt`
+(`ErrEmpty` / `ErrMoreThanOne` ↦ not ok). -/
+theorem iter_stream_agree_one {mi : Iter.IM σ α} {ms : Stream.SM σ' α} {ci : σ → Nat} {cs : σ' → Nat} {si : σ} {ss : σ'}
+    {Li Ls : List (α × Nat)} {ei es : Nat} (hi : Den mi ci si Li ei) (hs : SDen strict ms cs ss Ls (.end_ es))
+    (hL : Li.map Prod.fst = Ls.map Prod.fst) :
+    ∃ F, ∀ fuel, F ≤ fuel → (Iter.one mi fuel si).1 = some (oneOpt (Stream.one ms true fuel ss).1) := by
+  obtain ⟨F1, h1⟩ := one_den hi
+  obtain ⟨F2, h2⟩ := one_sden hs
+  exact ⟨max F1 F2, fun fuel hf => by rw [h1 fuel (by omega), h2 fuel (by omega), oneRes_opt, hL]; rfl⟩
+
+/-- non-vacuity: the slice iterator and the fault-free scripted stream over the same list qualify -/
+example (l : List α) : ∃ (Li Ls : List (α × Nat)) (ei es : Nat),
+    Den Iter.src (fun s : Iter.Src α => s.pulled) (Iter.Src.of l) Li ei ∧
+    SDen strict Stream.src (fun s : Stream.Src α => s.pulled) (ofList l) Ls (.end_ es) ∧
+    Li.map Prod.fst = Ls.map Prod.fst :=
+  ⟨_, _, _, _, slice_denotes l, ofList_sden (soft := strict) false (fun _ => rfl) (fun _ => rfl) l, rfl⟩
+
+example : (Iter.one Iter.src 5 (Iter.Src.of [7])).1 = some (oneOpt (Stream.one Stream.src true 5 (ofList [7])).1) := by
+  decide
+
+end reducers
+
 end agree
 
 /-! ### the xslices counterparts agree with the iterator versions -/
@@ -598,6 +919,42 @@ theorem xslices_agree_repeat (a : α) (n : Nat) :
     XSlices.repeat_ a (n : Int) = some (List.replicate n a) ∧ Yields (Iter.repeat_ a) (n : Int) (List.replicate n a) := by
   refine ⟨by simp [XSlices.repeat_], _, _, _, repeat_den a (n : Int), ?_⟩
   simp
+
+/-- `Compact` (comparable elements): `xslices.Compact` = `iterator.Compact`. -/
+theorem xslices_agree_compact_eq [DecidableEq α] (l : List α) :
+    XSlices.compact l = Seq.compact (fun a b => decide (a = b)) l ∧
+    Yields (Iter.compact (fun a b => decide (a = b)) Iter.src) ⟨Iter.Src.of l, true, none⟩
+      (Seq.compact (fun a b => decide (a = b)) l) :=
+  xslices_agree_compact (fun a b => decide (a = b))
+    ⟨fun a => by simp, fun a b h => by simp at h ⊢; exact h.symm, fun a b c h1 h2 => by simp at h1 h2 ⊢; exact h1.trans h2⟩ l
+
+/-- `Flatten` of slice iterators yields what `xslices.Join` returns. -/
+theorem xslices_agree_flatten (ls : List (List α)) :
+    XSlices.join ls = ls.flatten ∧
+    Yields (Iter.flatten Iter.src Iter.src) ⟨Iter.Src.of (ls.map Iter.Src.of), none⟩ ls.flatten := by
+  refine ⟨rfl, _, _, _, flatten_den (mi := Iter.src) (fun s : Iter.Src α => s.rest) (slice_denotes (ls.map Iter.Src.of))
+    (fun p _ => ⟨_, _, _, src_den p.1.rest p.1.calls p.1.pulled, annot_fst _ _⟩), ?_⟩
+  have e : ∀ (p : Nat) (ls : List (List α)),
+      ((annot p (ls.map Iter.Src.of)).flatMap fun q => q.1.rest.map fun a => (a, q.2)).map Prod.fst = ls.flatten := by
+    intro p ls
+    induction ls generalizing p with
+    | nil => rfl
+    | cons l ls ih => simp [annot, Iter.Src.of, ih, Function.comp_def] at ih ⊢
+  exact e 0 ls
+
+/-- `Equal` (two slices): `xslices.Equal` = `iterator.Equal` on the two slice iterators. -/
+theorem xslices_agree_equal [DecidableEq α] (a b : List α) :
+    ∃ F, ∀ fuel, F ≤ fuel → ∀ rounds, a.length + 1 ≤ rounds →
+      (Iter.equal Iter.src fuel rounds [Iter.Src.of a, Iter.Src.of b]).1 = some (XSlices.equal a b) := by
+  obtain ⟨F, hF⟩ := equal_den a (Iter.Src.of a) [Iter.Src.of b] [b]
+    ⟨_, _, _, slice_denotes a, annot_fst 0 a⟩ (.cons ⟨_, _, _, slice_denotes b, annot_fst 0 b⟩ .nil)
+  refine ⟨F, fun fuel hf rounds hr => ?_⟩
+  rw [hF fuel hf rounds hr]
+  simp only [XSlices.equal, List.mem_singleton, forall_eq]
+  congr 1
+  exact decide_eq_decide.mpr ⟨fun h => h.symm, fun h => h.symm⟩
+
+example : XSlices.equal [1, 2] [1, 2] = true ∧ XSlices.equal [1, 2] [1] = false := by decide
 
 end xslices
 
